@@ -18,7 +18,7 @@ def host_from_model(m, seed=0):
     sysel = root.find('system')
     systext = sysel.text or ''
     k = systext.rfind('system ')
-    names = re.findall(r'[A-Za-z_][A-Za-z_0-9]*', systext[k + 7:])
+    names = re.findall(r'[A-Za-z_][A-Za-z_0-9$#]*', systext[k + 7:])
     inst = ((root.find('instantiation').text if root.find('instantiation') is not None else '') or '') + ' ' + systext[:k]
     return {'gdecl': (root.find('declaration').text or ''), 'templates': ''.join(ET.tostring(t, encoding='unicode') for t in root.findall('template')),
             'inst': inst.strip(), 'processes': names}
